@@ -113,7 +113,15 @@ pub fn run_c14(a: &Args) {
         };
         let n = if bulk { 40 } else { rng.range(0, 7) };
         let mut used = std::collections::HashSet::new();
-        let names: Vec<String> = (0..n).map(|_| unicode_name(&mut rng, &mut used)).collect();
+        let mut names: Vec<String> = (0..n).map(|_| unicode_name(&mut rng, &mut used)).collect();
+        // names whose concatenations collide: ("01","15_2024") and ("01_15","2024"), ("a","b c") and ("a b","c")
+        let colliding = idx % 50 == 7 && !bulk;
+        if colliding {
+            let sep = *rng.pick(&["_", "-", " ", ":", ".", ",", "|", "->", "--"]);
+            names = vec!["01".to_string(), format!("15{}2024", sep), format!("01{}15", sep), "2024".to_string()];
+            ctx::count("reach:names-whose-concatenations-collide");
+        }
+        let n = names.len();
         let wmode = rng.below(3); // 0 unweighted, 1 weighted, 2 mixed
         let mut g: GS = Graph::new(specs.to_real());
         for nm in &names {
@@ -127,9 +135,11 @@ pub fn run_c14(a: &Args) {
             } else {
                 rng.range(0, 9)
             };
-            for _ in 0..m_edges {
+            let m_edges = if colliding { m_edges.max(2) } else { m_edges };
+            for k in 0..m_edges {
                 let u = rng.below(n);
                 let v = if rng.chance(1, 6) { u } else { rng.below(n) };
+                let (u, v) = if colliding && k < 2 { if k == 0 { (0, 1) } else { (2, 3) } } else { (u, v) };
                 let w = match wmode {
                     0 => f64::NAN,
                     1 => weird_weight(&mut rng),
